@@ -93,6 +93,29 @@ CGE4 = [R("cge", tb, lb, None) for tb in (0, 1) for lb in (0, 1)]
 NLX = [R("raw", 1, 1, 1, "crlf"), R("raw", 0, 0, 0, "cr"), R("raw", 0, 1, 0, "crlf"), R("raw", 1, 0, 1, "cr")]
 
 
+# line statements and line comments are part of the template language both engines share (Environment(line_statement_prefix=, line_comment_prefix=)):
+# every block tag that stands alone on its line (no whitespace-control or auto-indent modifier) is respelled as a line statement, a line comment is
+# put after the first one; the two engines must still agree.  raw blocks keep their tag form (their content is not tokenised).
+LS_PREFIX, LC_PREFIX = "%%", "%#"
+_RE_TAGLINE = re.compile(r"(?m)^([ \t]*)\{%(?![-+*])[ \t]*+((?!raw\b|endraw\b)[^%{}\n]*?)[ \t]*(?<![-+])%\}[ \t]*$")
+
+
+def to_line_statements(src):
+    n = [0]
+
+    def sub(m):
+        n[0] += 1
+        return m.group(1) + LS_PREFIX + " " + m.group(2) + ("\n" + m.group(1) + LC_PREFIX + " a line comment" if n[0] == 1 else "")
+    return _RE_TAGLINE.sub(sub, src)
+
+
+def ls_runs(src, quick):
+    if "{% raw" in src or to_line_statements(src) == src:
+        return []
+    k = sum(map(ord, src))
+    return [R("rawls", k % 2, (k // 2) % 2, 1)] if quick else [R("rawls", tb, lb, 1) for tb in (0, 1) for lb in (0, 1)]
+
+
 def nlx_for(src, quick):
     if "\n" not in src:
         return []
@@ -106,7 +129,7 @@ def runs_for(case):
     src = "".join(case["ps"])
     q = _W.get("quick", False)  # the quick tier renders each case under fewer (not other) settings
     if k == "same":
-        rs = (RAW8 if src.endswith("\n") or LOADER_KINDS & set(case["ks"]) else RAW4) + (CGE3[:2] if q else CGE3) + nlx_for(src, q)
+        rs = (RAW8 if src.endswith("\n") or LOADER_KINDS & set(case["ks"]) else RAW4) + (CGE3[:2] if q else CGE3) + nlx_for(src, q) + ls_runs(src, q)
         if case.get("plus"):
             rs = [r for r in rs if r["lb"]]
         return rs
@@ -169,10 +192,11 @@ def env_for(eng, kind, tb, lb, ktn):
     if e is not None:
         return e
     B, S = _W["B"], _W["S"]
-    if kind in ("raw", "rawae"):
+    if kind in ("raw", "rawae", "rawls"):
         J = B if eng == "b" else S
+        more = {"line_statement_prefix": LS_PREFIX, "line_comment_prefix": LC_PREFIX} if kind == "rawls" else {}
         e = J.Environment(loader=J.DictLoader(_W["loader"]), trim_blocks=bool(tb), lstrip_blocks=bool(lb), keep_trailing_newline=bool(ktn),
-                          undefined=J.StrictUndefined, autoescape=(kind == "rawae"))
+                          undefined=J.StrictUndefined, autoescape=(kind == "rawae"), **more)
     elif eng == "b":
         e = _W["builder"](B.DictLoader(_W["loader"]), _W["lctx"]).set_trim_blocks(bool(tb)).set_lstrip_blocks(bool(lb)).create()
         try:
@@ -202,6 +226,8 @@ def env_for(eng, kind, tb, lb, ktn):
 
 def outcomes(eng, run, src, ctxs):
     """one outcome per context: {"ok":1,"out":[code points]} | {"ok":0,"exc":class name}"""
+    if run["env"] == "rawls":
+        src = to_line_statements(src)
     src = src.replace("\n", NLS[run["nl"]]) if run["nl"] != "lf" else src
     try:
         t = env_for(eng, run["env"], run["tb"], run["lb"], run["ktn"]).from_string(src)
